@@ -256,3 +256,25 @@ Fixpoint split_last (sep : Z) (t : list Z) : option (list Z * list Z) :=
 
 Definition requal (sep : Z) (t : list Z) : list Z :=
   match split_last sep t with Some (m, n) => m ++ [sep] ++ n | None => [sep] ++ t end.   (* "".join([]) + "." + name *)
+
+(* ---- the callee's inbound delivery queue (Broker.scheduleCall / doNextCall): calls are started strictly in arrival order;
+   the head of the queue is waited for until its arguments are ready (ready_deferred: only third-party references, "gifts",
+   make one).  When it fires the waiting flag is cleared and the next delivery is looked at -- on callback the method runs,
+   on errback (gift refused / its Tub unreachable) callFailed answers with an error.  Whether the flag is cleared on
+   errback too is read from the source (ready_flag_cleared_on_failure). *)
+Inductive readiness := ReadyOk | ReadyFails.
+Inductive handled := Ran (req : Z) | Refused (req : Z).
+
+Fixpoint drain (waiting : bool) (q : list (Z * readiness)) : list handled :=
+  match q with
+  | [] => []
+  | (req, r) :: rest =>
+    if waiting then []                                  (* doNextCall returns at once: nothing behind it is looked at *)
+    else match r with
+         | ReadyOk => Ran req :: drain false rest
+         | ReadyFails => Refused req :: drain (negb ready_flag_cleared_on_failure) rest
+         end
+  end.
+
+Definition expected_handling (d : Z * readiness) : handled :=
+  match snd d with ReadyOk => Ran (fst d) | ReadyFails => Refused (fst d) end.
